@@ -41,6 +41,29 @@ def generate(rng, tier):
             lines.append("R %s %s - %s N" % (sp.s(), E.cfg_str(allow=allow, maxs=mx, buffered=b, eof=eof), data.hex() or "-"))
         if len(lines) > 1:
             cases.append(Case(lines, kind, {"eof": eof}))
+    # same-id nesting below a buffered master: two global masters Rec and Grp (declared Root/(0-)) nested in each other in random
+    # shapes, every master of known size, every non-empty subset of {Root, Rec, Grp} buffered (the roll-up has to pair each End with
+    # the Start of the same depth, not with the next End of any master)
+    REC, GRP, VAL = 0x4301, 0x4304, 0x4305
+    rsp = E.base_spec(extra=[(REC, "M", [E.ROOT, (0, None)]), (GRP, "M", [E.ROOT, (0, None)]), (VAL, "U", [E.ROOT, (1, None)])])
+
+    def shape(depth):
+        kids = []
+        for _ in range(rng.randint(1, 3) if depth < 4 else 0):
+            r = rng.random()
+            if r < 0.45 and depth < 4:
+                kids.append(E.Node(("m", rng.choice([REC, REC, GRP])), rng.choice([None, None, 2]), shape(depth + 1)))
+            elif depth >= 1:
+                kids.append(E.Node(("u", VAL, rng.randint(0, 300))))
+        return kids
+    for k in range(120 * TH if thorough else 30):
+        nodes = [E.Node(("m", E.ROOT), None, [E.Node(("m", REC), None, [E.Node(("m", REC), None, shape(2) + [E.Node(("m", GRP), None, shape(3))] + shape(3))] + shape(2))] + shape(1))]
+        data = E.encode(nodes)
+        lines = ["R %s %s - %s N" % (rsp.s(), E.cfg_str(), data.hex())]
+        for mask in range(1, 8):
+            b = [m for i, m in enumerate((E.ROOT, REC, GRP)) if mask >> i & 1]
+            lines.append("R %s %s - %s N" % (rsp.s(), E.cfg_str(buffered=b), data.hex()))
+        cases.append(Case(lines, "samenest", {"eof": 1}))
     return cases
 
 
